@@ -26,7 +26,8 @@ def allZero (cs : List Char) : Bool := cs.all (· = '0')
 def formatNumber (x : F) (thou dec : String) (digits : Nat) (removeZero rounding : Bool) : String :=
   let formatted : List Char := (if rounding then Num.fixed (Num.abs x) digits else Num.short (Num.abs x)).toList
   let parts := splitDot formatted
-  let sign : List Char := if Num.lt x (Num.ofInt 0) then ['-'] else []
+  -- a negative number whose printed digits are all zero gets no sign (fix in /repo)
+  let sign : List Char := if Num.lt x (Num.ofInt 0) && formatted.any (fun c => c != '0' && c != '.') then ['-'] else []
   let frac : List Char :=
     if !parts.2.isEmpty && !(removeZero && allZero parts.2) then dec.toList ++ parts.2 else []
   String.ofList (sign ++ groupThousands thou.toList parts.1 ++ frac)
